@@ -15,6 +15,7 @@ ID = "C11"
 UPGRADES = [b"websocket", b"WebSocket"]
 CONNECTIONS = [b"Upgrade", b"keep-alive, Upgrade", b"upgrade"]
 VERSIONS = [b"13", b"12", None]
+METHODS = [b"POST", b"PUT", b"DELETE", b"OPTIONS"]
 
 
 def _matrix() -> List[dict]:
@@ -32,6 +33,10 @@ def _matrix() -> List[dict]:
         for ve in range(len(VERSIONS)):
             for decision in ("accept", "close"):
                 cases.append({"worker": worker, "case": {"carrier": "h2", "version": ve, "decision": decision}})
+        for method in METHODS:
+            cases.append({"worker": worker, "case": {"carrier": "h1", "upgrade": 0, "connection": 0, "version": 0,
+                                                     "key": True, "http": "1.1", "decision": "accept",
+                                                     "method": method.decode()}})
     return cases
 
 
@@ -123,6 +128,9 @@ def run(tape: Tape, params: dict) -> Outcome:
                          "version": VERSIONS[case["version"]], "omit_key": not case["key"],
                          "http_version": case["http"].encode()}
             valid = VERSIONS[case["version"]] == b"13" and case["key"] and case["http"] == "1.1"
+            if case.get("method"):
+                sess_over["method"] = case["method"].encode()
+                valid = "non-get"
         else:
             sess_over = {"version": VERSIONS[case["version"]]}
             valid = VERSIONS[case["version"]] == b"13"
@@ -146,6 +154,10 @@ def run(tape: Tape, params: dict) -> Outcome:
             else:
                 sess_over["version"] = tape.choice([b"12", None, b"7"], "hs.version2")
             valid = False
+        if carrier == "h1" and valid is True and tape.chance(1, 8, "hs.method"):
+            # a complete handshake on a method other than GET is not a WebSocket upgrade
+            sess_over["method"] = tape.choice(METHODS, "hs.whichmethod")
+            valid = "non-get"
         if carrier == "h1":
             sess_over.setdefault("upgrade", tape.choice([b"websocket", b"WebSocket", b"WEBSOCKET"], "hs.upgrade"))
             sess_over.setdefault("connection", tape.choice([b"Upgrade", b"upgrade", b"keep-alive, Upgrade",
@@ -187,7 +199,7 @@ def run(tape: Tape, params: dict) -> Outcome:
     def setup(conn: Any) -> None:
         conn.seg_mode = seg
 
-    accept_expected = valid and decision["kind"] == "accept" and decision.get("subprotocol") != "unoffered" \
+    accept_expected = valid is True and decision["kind"] == "accept" and decision.get("subprotocol") != "unoffered" \
         and not (decision.get("headers") and decision["headers"][0][0] in (b"sec-websocket-protocol", b":status"))
     if decision.get("subprotocol") is not None and decision.get("subprotocol") != "unoffered" and not offered:
         accept_expected = False
@@ -266,6 +278,13 @@ def _check(world: World, host: AppHost, sess: WSSession, valid: bool, decision: 
     hd = {}
     for n, v in headers:
         hd.setdefault(n, []).append(v)
+    if valid == "non-get":
+        # "an upgrade is attempted only for ... HTTP/1.1 GET": whatever else the server does with the
+        # request (it is an ordinary HTTP request), it must not switch protocols or start a websocket scope
+        if status == 101 or any(i.type == "websocket" for i in insts):
+            bad("upgrade-only-get", f"a non-GET request carrying a complete handshake "
+                f"was answered {status} with instances {[i.type for i in insts]}")
+        return
     if not valid:
         if status != 400:
             bad("invalid-400", f"invalid handshake answered {status}, expected 400")
